@@ -193,6 +193,8 @@ type GuardQuery struct {
 	MaxDepth   int
 	// NoInline: callee names never descended into (result top)
 	NoInline map[string]bool
+	// MaxDynamic bounds the number of resolved targets of a dynamic call that are analysed (default 8).
+	MaxDynamic int
 	// ThroughSite, if set, restricts the reported returns of Root to those
 	// reachable (over executable edges) from the block of this instruction.
 	ThroughSite ssa.Instruction
@@ -220,6 +222,7 @@ type GuardResult struct {
 }
 
 type gEngine struct {
+	skipped  []string
 	rootExec map[[2]int]bool
 	q        *GuardQuery
 	memo     map[string][]lat
@@ -241,7 +244,7 @@ func runGuard(q *GuardQuery) *GuardResult {
 		}
 	}
 	fa := e.analyse(q.Root, args, 0)
-	res := &GuardResult{Sites: map[string][]string{}, Visited: e.nctx, RootExec: e.rootExec}
+	res := &GuardResult{Sites: map[string][]string{}, Visited: e.nctx, RootExec: e.rootExec, Unknown: e.skipped}
 	if fa != nil {
 		res.Returns = fa.returns
 	}
@@ -477,6 +480,12 @@ func (e *gEngine) analyse(f *ssa.Function, args []lat, depth int) *fnAnalysis {
 					kl := constLat(k)
 					if kl.k == kTop {
 						continue
+					}
+					// len(v) == c with c > 0: v holds exactly c elements on the equal edge
+					if lc, ok := pr[0].(*ssa.Call); ok && kl.k == kConst && kl.c.Kind() == constant.Int && constant.Sign(kl.c) > 0 {
+						if bi, ok := lc.Call.Value.(*ssa.Builtin); ok && bi.Name() == "len" && len(lc.Call.Args) == 1 {
+							addRef(b, eqB, lc.Call.Args[0], lat{k: kSliceN, c: kl.c})
+						}
 					}
 					addRef(b, eqB, pr[0], kl)
 					if kl.k == kNil {
@@ -715,6 +724,31 @@ func (e *gEngine) analyse(f *ssa.Function, args []lat, depth int) *fnAnalysis {
 				l := latTop
 				if get(x.X).k == kBigSlice && x.High == nil && x.Max == nil {
 					l = latBigSlice
+				}
+				if pt, ok := x.X.Type().Underlying().(*types.Pointer); ok {
+					if at, ok := pt.Elem().Underlying().(*types.Array); ok {
+						// slicing an array: never nil; exact length when the bounds are constant
+						l = latNonNil
+						lo, hi := int64(0), at.Len()
+						okb := true
+						if x.Low != nil {
+							if v := get(x.Low); v.k == kConst && v.c.Kind() == constant.Int {
+								lo, _ = constant.Int64Val(v.c)
+							} else {
+								okb = false
+							}
+						}
+						if x.High != nil {
+							if v := get(x.High); v.k == kConst && v.c.Kind() == constant.Int {
+								hi, _ = constant.Int64Val(v.c)
+							} else {
+								okb = false
+							}
+						}
+						if okb && hi-lo > 0 {
+							l = latSliceLen(hi - lo)
+						}
+					}
 				}
 				set(x, l)
 			case *ssa.ChangeType:
@@ -1333,7 +1367,14 @@ func (e *gEngine) call(f *ssa.Function, x *ssa.Call, get func(ssa.Value) lat, de
 	} else {
 		callees = p.dynamicCallees(f, x)
 	}
-	if len(callees) == 0 || len(callees) > 8 {
+	maxDyn := e.q.MaxDynamic
+	if maxDyn == 0 {
+		maxDyn = 8
+	}
+	if len(callees) == 0 || len(callees) > maxDyn {
+		if len(callees) > maxDyn {
+			e.skipped = append(e.skipped, fmt.Sprintf("%s: %d targets of %s not analysed", p.pos(x.Pos()), len(callees), name))
+		}
 		return apply(top(), name), false
 	}
 	var joined []lat
